@@ -1,8 +1,10 @@
 (* C06 - Close handshake: right reply, one Close frame, nothing after it.
    This file holds the DATA clauses (reply table, reported code/reason, local close body), proved for all 65536
-   status codes and all reasons by interval case analysis.  The schedule clauses (at most one Close frame, nothing
-   after it, later writes rejected - for every interleaving) are the skeleton obligations of Properties/Skel*.v. *)
+   status codes and all reasons by interval case analysis, and the SCHEDULE clauses (at most one Close frame, no data
+   frame after it - for every number of threads and every interleaving) for the concurrency skeleton that the
+   translator regenerates from /repo on every run (Gen/Skel.v). *)
 From Gws Require Import Lib.Base Model.CloseCode Spec.CloseReply Proofs.CloseProofs.
+From Gws Require Import Skel.IR Skel.Checker Skel.Monitors Skel.GlobalClose Skel.Link Skel.Obligations.
 Local Open Scope N_scope.
 
 (* On receiving a Close frame with any body: the code and reason reported to the application are the peer's, and the
@@ -32,5 +34,28 @@ Example C06_nonvacuous :
   /\ local_close_body 7 [1; 2; 3] = [3; 232; 1; 2; 3].
 Proof. vm_compute. repeat split; reflexivity. Qed.
 
+(* ---- schedule clauses.  A system = any assignment of programs to thread ids, each program being one of the
+   connection-level entry points of gws (WriteMessage, Writev, WriteAsync, WriteFile, Broadcast, WriteClose, ReadLoop,
+   SetDeadline ... in either role) or a goroutine such a call starts (async queue worker, parallel handler), as extracted
+   from the current source.  tr = any global interleaving of their actions that respects the connection mutex and the
+   atomic closed flag (gruns ... = Some g).  Then the wire log has at most one Close frame and no data frame after it. *)
+Theorem C06_one_close_nothing_after : forall prog : nat -> stmt,
+  (forall t, In (prog t) conn_programs) ->
+  forall tr g, (forall t, thread_trace (prog t) (proj t tr)) ->
+  gruns g0 (ctrace tr) = Some g ->
+  (closes (log g) <= 1)%nat /\ nda (log g) = true.
+Proof.
+  intros prog Hin. apply system_one_close. intro t.
+  pose proof skel_ok_close as H. rewrite forallb_forall in H. exact (H _ (Hin t)).
+Qed.
+
+(* the thread-local discipline behind it, checked on the regenerated skeleton: a data frame is written only while holding
+   Conn.mu and after reading closed = false under it; the Close frame only by the CAS winner, once, under the lock;
+   the transport is closed only by that thread; a call that reads closed = true under the lock writes nothing *)
+Theorem C06_skeleton_discipline : forallb close_ok conn_programs = true.
+Proof. exact skel_ok_close. Qed.
+
 Print Assumptions C06_reply.
 Print Assumptions C06_local_close.
+Print Assumptions C06_one_close_nothing_after.
+Print Assumptions C06_skeleton_discipline.
